@@ -348,7 +348,7 @@ def handle (toks : List String) : String :=
       (match parseVals s vals with
        | some rows =>
          -- list children keep their physical payloads; other encodings denote the logical column only
-         let rows := if _kind.startsWith "list" ∨ _kind.startsWith "llist" ∨ _kind.startsWith "lview" ∨ _kind.startsWith "fsl"
+         let rows := if _kind.startsWith "list" ∨ _kind.startsWith "llist" ∨ _kind.startsWith "lview" ∨ _kind.startsWith "fsl" ∨ _kind.startsWith "struct"
            then rows else rows.map (fun r => if r.2 then r else (zeroOf s, false))
          checkMS (runPlan (plan s d) d (safe = "1") rows) (inDomain s rows)
        | none => "bad-op")
